@@ -439,12 +439,24 @@ func suiteBackup(seed uint64, n int, work string) {
 		case <-time.After(150 * time.Millisecond):
 		}
 		wfd.Close()
-		if err := <-bdone; err != nil {
+		stuck := false
+		if err, ok := waitCh(bdone, "Backup"); !ok {
+			stuck = true
+		} else if err != nil {
 			emit("#SPEC backup failed: %v", err)
 		}
-		<-wdone
+		if _, ok := waitCh(wdone, "the write transaction started during Backup"); !ok {
+			stuck = true
+		}
 		if variant == 3 {
-			<-mdone
+			if _, ok := waitCh(mdone, "the Merge started during Backup"); !ok {
+				stuck = true
+			}
+		}
+		if stuck {
+			os.Remove(fifo)
+			st.db, st.tx = nil, nil // abandoned: a goroutine is stuck inside it
+			continue
 		}
 		os.Remove(fifo)
 		os.Remove(bdir + "/!sync")
@@ -506,7 +518,10 @@ func suiteBackupLate(st *St, work, open string, obs []string, variant, seg, i in
 		st.run(fmt.Sprintf("put %s %s %s 0 1700000000", hx([]byte("b1")), hx([]byte("a")), hx([]byte(strings.Repeat("\x02", seg-42-2-1)))))
 		cres := st.run("commit")
 		st.run("rollback")
-		if err := <-bdone; err != nil {
+		if err, ok := waitCh(bdone, "Backup called while a write transaction held the lock"); !ok {
+			st.db, st.tx = nil, nil
+			return true
+		} else if err != nil {
 			emit("#SPEC backup failed: %v", err)
 		}
 		_ = cres
@@ -531,7 +546,10 @@ func suiteBackupLate(st *St, work, open string, obs []string, variant, seg, i in
 		if !started {
 			return true // Merge had nothing to remove
 		}
-		if err := <-bdone; err != nil {
+		if err, ok := waitCh(bdone, "Backup called while Merge removed old segments"); !ok {
+			st.db, st.tx = nil, nil
+			return true
+		} else if err != nil {
 			emit("#SPEC backup failed: %v (merge=%s)", err, mres)
 		}
 	}
@@ -571,4 +589,16 @@ func suiteBackupLate(st *St, work, open string, obs []string, variant, seg, i in
 	}
 	os.RemoveAll(bdir)
 	return true
+}
+
+// waitCh waits for a goroutine's result; a goroutine that does not answer within 30 s is stuck in the library
+// (the lock protocol is broken): the caller reports it and abandons the case.
+func waitCh(ch chan error, what string) (error, bool) {
+	select {
+	case err := <-ch:
+		return err, true
+	case <-time.After(30 * time.Second):
+		emit("#SPEC %s did not return within 30 s (deadlock inside the library)", what)
+		return nil, false
+	}
 }
